@@ -53,6 +53,7 @@ def elementwise(ctx, op, nested=()):
     if m is None:
         raise Unestablished("no rank dispatch (match on tensor::Data) in %s" % op, c.loc(fn))
     spec = _spec(op, fn)
+    arms.guarded_arms(ctx, "R15.1", fn, m, op)
     ras = arms.rank_arms(m)
     seen = set()
     env0 = arms.fn_level_env(c, fn, upto=m)
